@@ -181,8 +181,8 @@ func grepLines(text, prefix string) string {
 			out = append(out, l)
 		}
 	}
-	if len(out) > 20 {
-		out = out[:20]
+	if len(out) > 80 {
+		out = out[:80]
 	}
 	return strings.Join(out, "\n")
 }
